@@ -24,6 +24,7 @@ import (
 	"net/http"
 	"net/http/httputil"
 	"net/url"
+	"strconv"
 	"strings"
 	"time"
 
@@ -44,6 +45,7 @@ type HTTPReverseProxyOptions struct {
 
 type HTTPReverseProxy struct {
 	proxy       http.Handler
+	transport   *http.Transport
 	vhostRouter *Routers
 
 	responseHeaderTimeout time.Duration
@@ -81,11 +83,14 @@ func NewHTTPReverseProxy(option HTTPReverseProxyOptions, vhostRouter *Routers) *
 					log.Tracef("choose endpoint name [%s] for http request host [%s] path [%s] httpuser [%s]",
 						endpoint, originalHost, reqRouteInfo.URL, reqRouteInfo.HTTPUser)
 				}
-				// Set {domain}.{location}.{routeByHTTPUser}.{endpoint} as URL host here to let http transport reuse connections.
+				// Set {domain}.{location}.{routeByHTTPUser}.{endpoint}.{routeID} as URL host here to let http transport reuse connections.
+				// The route id changes when a route is registered again, so connections created for a
+				// previous owner of the same domain, location and user are never reused for the new one.
 				req.URL.Host = rc.Domain + "." +
 					base64.StdEncoding.EncodeToString([]byte(rc.Location)) + "." +
 					base64.StdEncoding.EncodeToString([]byte(rc.RouteByHTTPUser)) + "." +
-					base64.StdEncoding.EncodeToString([]byte(endpoint))
+					base64.StdEncoding.EncodeToString([]byte(endpoint)) + "." +
+					strconv.FormatUint(reqRouteInfo.RouteID, 10)
 
 				for k, v := range rc.Headers {
 					req.Header.Set(k, v)
@@ -140,6 +145,7 @@ func NewHTTPReverseProxy(option HTTPReverseProxyOptions, vhostRouter *Routers) *
 			_, _ = rw.Write(getNotFoundPageContent())
 		},
 	}
+	rp.transport = proxy.Transport.(*http.Transport)
 	rp.proxy = proxy
 	return rp
 }
@@ -164,6 +170,8 @@ func (rp *HTTPReverseProxy) Register(routeCfg RouteConfig) error {
 // UnRegister unregister route config by domain and location
 func (rp *HTTPReverseProxy) UnRegister(routeCfg RouteConfig) {
 	rp.vhostRouter.Del(routeCfg.Domain, routeCfg.Location, routeCfg.RouteByHTTPUser)
+	// Idle connections to the removed route's backend will never be used again.
+	rp.transport.CloseIdleConnections()
 }
 
 func (rp *HTTPReverseProxy) GetRouteConfig(domain, location, routeByHTTPUser string) *RouteConfig {
@@ -317,7 +325,12 @@ func (rp *HTTPReverseProxy) injectRequestInfoToCtx(req *http.Request) *http.Requ
 	}
 
 	originalHost, _ := httppkg.CanonicalHost(reqRouteInfo.Host)
-	rc := rp.GetRouteConfig(originalHost, reqRouteInfo.URL, reqRouteInfo.HTTPUser)
+	var rc *RouteConfig
+	if vr, ok := rp.getVhost(originalHost, reqRouteInfo.URL, reqRouteInfo.HTTPUser); ok {
+		log.Debugf("get new HTTP request host [%s] path [%s] httpuser [%s]", originalHost, reqRouteInfo.URL, reqRouteInfo.HTTPUser)
+		rc = vr.payload.(*RouteConfig)
+		reqRouteInfo.RouteID = vr.id
+	}
 
 	newctx := req.Context()
 	newctx = context.WithValue(newctx, RouteInfoKey, reqRouteInfo)
